@@ -876,9 +876,12 @@ class Object(base.Symbolic, metaclass=ObjectMeta):
       kwargs[k] = v
     # NOTE: per-object flags are copied per node: the copy is built unsealed
     # (the cloned children carry their own sealed flag) and then flagged.
-    new_value = self.__class__(allow_partial=self._allow_partial,
-                               sealed=False,
-                               **kwargs)  # pytype: disable=not-instantiable
+    # The copy is built from the flags of the original, not from an enclosing
+    # `pg.allow_partial` scope (which would be written into typed children).
+    with flags.allow_partial(None):
+      new_value = self.__class__(allow_partial=self._allow_partial,
+                                 sealed=False,
+                                 **kwargs)  # pytype: disable=not-instantiable
     new_value._sym_attributes.sym_seal(self._sealed)  # pylint: disable=protected-access
     new_value.sym_seal(self._sealed)
     return new_value.set_accessor_writable(self._accessor_writable)
